@@ -663,6 +663,9 @@ func (s *Service) serve(nc Conn) error {
 	// Initialize fields
 	inCh := make(chan *nats.Msg, s.inChannelSize)
 	workCh := make(chan *work, 1)
+	// A late runWith call, made while the service was previously started, may
+	// still access the work queue under the lock.
+	s.mu.Lock()
 	s.nc = nc
 	s.inCh = inCh
 	s.workcond = sync.Cond{L: &s.mu}
@@ -670,6 +673,7 @@ func (s *Service) serve(nc Conn) error {
 	s.workqueue = s.workbuf[:0]
 	s.rwork = make(map[string]*work, s.inChannelSize)
 	s.queryTQ = timerqueue.New(s.queryEventExpire, s.queryDuration)
+	s.mu.Unlock()
 
 	// Start workers
 	s.wg.Add(s.workerCount)
